@@ -552,12 +552,117 @@ def rule_comments(chk, prog, tier):
     r.exhaustive = True
 
 
+# ------------------------------------------------------------------ C13.e random lexing
+
+def ref_lex(src):
+    """reference pp-token lexer (C11 5.1.1.2 phases 2-3, 6.4): -> list of token kind names, or ('error', why)"""
+    s = src.replace('\\\n', '')          # phase 2
+    P3 = ['...', '<<=', '>>=']
+    P2 = ['->', '++', '--', '<<', '>>', '<=', '>=', '==', '!=', '&&', '||', '*=', '/=', '%=', '+=', '-=', '&=', '^=', '|=', '##', '::']
+    KIND = {'[': 'TLBRACK', ']': 'TRBRACK', '(': 'TLPAREN', ')': 'TRPAREN', '{': 'TLBRACE', '}': 'TRBRACE', '.': 'TPERIOD', '->': 'TARROW', '++': 'TINC', '--': 'TDEC', '&': 'TBAND', '*': 'TMUL',
+            '+': 'TADD', '-': 'TSUB', '~': 'TBNOT', '!': 'TLNOT', '/': 'TDIV', '%': 'TMOD', '<<': 'TSHL', '>>': 'TSHR', '<': 'TLESS', '>': 'TGREATER', '<=': 'TLEQ', '>=': 'TGEQ', '==': 'TEQL', '!=': 'TNEQ',
+            '^': 'TXOR', '|': 'TBOR', '&&': 'TLAND', '||': 'TLOR', '?': 'TQUESTION', ':': 'TCOLON', '::': 'TCOLONCOLON', ';': 'TSEMICOLON', '...': 'TELLIPSIS', '=': 'TASSIGN', '*=': 'TMULASSIGN',
+            '/=': 'TDIVASSIGN', '%=': 'TMODASSIGN', '+=': 'TADDASSIGN', '-=': 'TSUBASSIGN', '<<=': 'TSHLASSIGN', '>>=': 'TSHRASSIGN', '&=': 'TBANDASSIGN', '^=': 'TXORASSIGN', '|=': 'TBORASSIGN',
+            ',': 'TCOMMA', '#': 'THASH', '##': 'THASHHASH'}
+    out = []; i = 0; n = len(s)
+    import re as _re
+    while i < n:
+        ch = s[i]
+        if ch in ' \t\f\v': i += 1; continue
+        if ch == '\n': out.append('TNEWLINE'); i += 1; continue
+        if s.startswith('//', i):
+            j = s.find('\n', i); i = n if j < 0 else j; continue
+        if s.startswith('/*', i):
+            j = s.find('*/', i + 2)
+            if j < 0: return out, ('error', 'EOF in comment')
+            i = j + 2; continue
+        m = _re.match(r'(u8|u|U|L)?"', s[i:])
+        if m or ch == '"':
+            j = i + (len(m.group(0)) if m else 1)
+            while True:
+                if j >= n: return out, ('error', 'EOF in string')
+                if s[j] == '\n': return out, ('error', 'newline in string')
+                if s[j] == '\\':
+                    if j + 1 >= n: return out, ('error', 'EOF in string')
+                    if s[j + 1] not in '\'"?\\abfnrtvxuU01234567': return out, ('error', 'invalid escape')
+                    j += 2; continue
+                if s[j] == '"': break
+                j += 1
+            out.append('TSTRINGLIT'); i = j + 1; continue
+        m = _re.match(r"(u8|u|U|L)?'", s[i:])
+        if m:
+            j = i + len(m.group(0))
+            while True:
+                if j >= n: return out, ('error', 'EOF in character constant')
+                if s[j] == '\n': return out, ('error', 'newline in character constant')
+                if s[j] == '\\':
+                    if j + 1 >= n: return out, ('error', 'EOF in character constant')
+                    if s[j + 1] not in '\'"?\\abfnrtvxuU01234567': return out, ('error', 'invalid escape')
+                    j += 2; continue
+                if s[j] == "'": break
+                j += 1
+            out.append('TCHARCONST'); i = j + 1; continue
+        m = _re.match(r'\.?[0-9]([eEpP][+-]|[0-9A-Za-z_.])*', s[i:])
+        if m: out.append('TNUMBER'); i += m.end(); continue
+        m = _re.match(r'[A-Za-z_][A-Za-z0-9_]*', s[i:])
+        if m: out.append('TIDENT'); i += m.end(); continue
+        for tbl in (P3, P2):
+            p = next((p for p in tbl if s.startswith(p, i)), None)
+            if p: break
+        if p: out.append(KIND[p]); i += len(p); continue
+        if ch in KIND: out.append(KIND[ch]); i += 1; continue
+        out.append('TOTHER'); i += 1
+    return out, None
+
+
+def rule_random_lex(chk, prog, tier):
+    r = chk.rule('C13.e', 'random character sequences (punctuators, identifiers, literal prefixes, pp-numbers, literals with escapes, comments, white space, and backslash-newline splices at arbitrary positions) are split into the preprocessing tokens of C11 6.4 by the real nextchar/scankind',
+                 floor=500, oracle='reference lexer props/c13.py:ref_lex (translation phases 2-3)')
+    import random, par
+    from props import c11
+    rnd = random.Random(4242)
+    PIECES = ['a', 'u8', 'L', 'U', 'u', 'x1', '_', '0', '1', '12', '0x1f', '1e', '+', '-', '1.', '.5', 'p', 'e', '.', '..', '...', '->', '-', '>', '>>', '>>=', '<', '<<=', '=', '==', '!', '&', '&&', '|', '^', '%',
+              '*', '/', '//', '/*', '*/', ':', '::', '#', '##', '?', ';', ',', '(', ')', '[', ']', '{', '}', '~', '"', "'", '"s"', "'c'", '\\n', '\\', '\\x', ' ', '  ', '\t', '\n', '\\\n', '\\\n', '@', '$', '`', '"a\\"b"', "'\\''"]
+    N = 700 if tier == 'quick' else 6000
+    cases = []; seen = set()
+    while len(cases) < N:
+        s_ = ''.join(rnd.choice(PIECES) for _ in range(rnd.randint(1, 7)))
+        if s_ in seen: continue
+        seen.add(s_); cases.append(s_)
+    names = {v: k for k, v in cmodel.enum_names(prog, 'tokenkind')}
+    def work(chunk):
+        out = []
+        for src in chunk:
+            want, err = ref_lex(src)
+            # scan until EOF or error: ask for one more token than the reference expects
+            try:
+                got = c11.scan_concrete(prog, src, len(want) + 1)
+                out.append((src, want, err, [names.get(k, k) for k, _, _ in got], None))
+            except AnalysisBroken as x:
+                out.append((src, want, err, None, str(x)))
+        return out
+    for res in par.pmap(work, [cases[k::48] for k in range(48)]):
+        for src, want, err, got, broke in res:
+            key = 'lex:%r' % src
+            if broke is not None:
+                if 'terminal:error' in broke and err is not None:
+                    r.instance(True, key, 'scan.c:scankind', ''); continue
+                if 'terminal:error' in broke:
+                    r.instance(False, key, 'scan.c:scankind', 'valid input rejected: %s; expected tokens %s' % (broke[-120:], want)); continue
+                raise AnalysisBroken('scankind(%r): %s' % (src, broke))
+            if err is not None:
+                r.instance(False, key, 'scan.c:scankind', 'must be diagnosed (%s); scanned as %s' % (err[1], got)); continue
+            r.instance(got == want + ['TEOF'], key, 'scan.c:scankind', 'expected %s then end of input; scanned %s' % (want, got))
+    r.exhaustive = False
+
+
 def run(chk, tier):
     prog = facts.programs()['cproc-qbe']
     chk.guard('C13.a', lambda: rule_punct(chk, prog, tier))
     chk.guard('C13.b', lambda: rule_number_ident(chk, prog, tier))
     chk.guard('C13.c', lambda: rule_keywords(chk, prog, tier))
     chk.guard('C13.d', lambda: rule_comments(chk, prog, tier))
+    chk.guard('C13.e', lambda: rule_random_lex(chk, prog, tier))
     from props import c11
     chk.guard('C11.c', lambda: c11.rule_nextchar(chk, prog, tier))      # the character reader (splices)
     chk.guard('C11.d', lambda: c11.rule_tokenloc(chk, prog, tier))
